@@ -233,6 +233,7 @@ def run_check(prop, tier, max_seconds=None):
     with open(path, 'w') as fh:
       json.dump(_jsonable({'property': prop, 'case': case, 'sub': f.get('sub'),
                            'failure': f, 'preceded_by': preceded_by,
+                           'verif_seed': int(seed),
                            'replay_cmd': f'./check {prop} --replay {path}'}),
                 fh, indent=1, sort_keys=True)
     violations.append((path, f))
@@ -294,6 +295,8 @@ def run_replay(prop, path):
   env.lib()
   findings_mod.load()
   rec = json.load(open(path))
+  if 'verif_seed' in rec:
+    os.environ['VERIF_SEED'] = str(rec['verif_seed'])   # same value pool
   case = rec['case']
   case['only'] = rec.get('sub')
   for c in rec.get('preceded_by') or []:
